@@ -19,7 +19,7 @@ use crate::util::*;
 pub const PROP: Prop = Prop {
     id: "C06",
     level: "fault_enumeration",
-    rule: "inputs from printed values (several dialects), mutations of them, token-alphabet sequences and arbitrary bytes (<= 200 bytes quick, 2 KiB thorough) x sampled parser option sets (all 1536 reachable) x API (single-shot value, single-shot datum, iterated); the stream is an instrumented io::Read with chunk schedules {1 byte, generated cycle, whole}, optional BufReader of capacity {1,2,3,7,8192}, Interrupted injected by a generated pattern (including before the first read), and a hard error injected at EVERY offset 0..=len of every input with each of four error kinds; oracle: same outcome from str (valid UTF-8 only), slice and stream, and for the iterated APIs the same whole history of items and errors when the caller goes on after an error; a fault at or before the highest offset the fault-free run requested must give an I/O-category error carrying the injected payload, a later fault must change nothing; a stream that keeps failing with WouldBlock must make the call return that error (no further polling), and after a failure that occurs once the parser must not report the end of input before the stream has delivered all its bytes; non-trivial = at least 2 tokens and (a fault strictly inside the input, or >= 2 chunks, or an Interrupted); distinct by digest of (input, options, schedule)",
+    rule: "(rounds 6-7: one Parser called again and again after a failed read, persistent and transient, the whole history compared with the fault-free one; inputs with a byte order mark, Unicode spaces, separators, NUL, Ctrl-Z or a shebang at the start, the end or after the first blank) inputs from printed values (several dialects), mutations of them, token-alphabet sequences and arbitrary bytes (<= 200 bytes quick, 2 KiB thorough) x sampled parser option sets (all 1536 reachable) x API (single-shot value, single-shot datum, iterated); the stream is an instrumented io::Read with chunk schedules {1 byte, generated cycle, whole}, optional BufReader of capacity {1,2,3,7,8192}, Interrupted injected by a generated pattern (including before the first read), and a hard error injected at EVERY offset 0..=len of every input with each of four error kinds; oracle: same outcome from str (valid UTF-8 only), slice and stream, and for the iterated APIs the same whole history of items and errors when the caller goes on after an error; a fault at or before the highest offset the fault-free run requested must give an I/O-category error carrying the injected payload, a later fault must change nothing; a stream that keeps failing with WouldBlock must make the call return that error (no further polling), and after a failure that occurs once the parser must not report the end of input before the stream has delivered all its bytes; non-trivial = at least 2 tokens and (a fault strictly inside the input, or >= 2 chunks, or an Interrupted); distinct by digest of (input, options, schedule)",
     assumptions: &[
         "error outcomes are compared by category and message text without the location suffix (locations are C11/C19's subject)",
         "the parser is deterministic, so the set of offsets it requests in the fault-free run determines which faults it must hit",
